@@ -34,8 +34,8 @@ GhostStep(g, x) ==
         \* read-write grants as last signed by the owner and accepted; a newly created model starts with none
         created == SelectSeq(x.post.metas, LAMBDA m : ~HasMeta(x.pre, m.data))
         gr1 == FoldLeft(LAMBDA acc, m : Put(acc, "data", [data |-> m.data, rw |-> <<>>]), g.grants, created)
-        gr2 == IF Kind(x) = "Permission" /\ Ok(x) /\ x.ev.sigmode = "ok" /\ x.ev.signer = x.ev.owner /\ HasMeta(x.pre, x.ev.data)
-                  /\ MetaOf(x.pre, x.ev.data).owner = x.ev.signer
+        gr2 == IF Kind(x) = "Permission" /\ Ok(x) /\ x.ev.sigmode = "ok" /\ Principal(g.cfg, x.pre, x.ev) = x.ev.owner /\ HasMeta(x.pre, x.ev.data)
+                  /\ MetaOf(x.pre, x.ev.data).owner = x.ev.owner
                THEN Put(gr1, "data", [data |-> x.ev.data, rw |-> x.ev.rw]) ELSE gr1
         \* shard-collateral flows between providers and the node escrow, from bank deltas: every step except capacity
         \* pledges (Add/RemoveVstorage), plain transfers and staking; in a Claim only the debt it repaid counts (as paid in)
